@@ -109,20 +109,129 @@ fn router_contract() -> Box<dyn Contract<Empty>> {
     ))
 }
 
+// "proxies k": from the next init on, the LAST k users of the world are generic proxy CONTRACTS (they forward whatever
+// messages their operator hands them, hold their own balances, and have no cw20 Receive entry point).  To the model they
+// are ordinary accounts 1000+i; on the chain they live at the contract addresses right after the asset tokens, so every
+// later contract (pairs, LP tokens) sits `k` addresses further than its model address.
+static N_PROXIES: std::sync::atomic::AtomicU64 = std::sync::atomic::AtomicU64::new(0);
+static N_USERS: std::sync::atomic::AtomicU64 = std::sync::atomic::AtomicU64::new(0);
+static N_TOKENS: std::sync::atomic::AtomicU64 = std::sync::atomic::AtomicU64::new(0);
+fn layout3() -> (u128, u128, u128) {
+    use std::sync::atomic::Ordering::SeqCst;
+    (
+        N_PROXIES.load(SeqCst) as u128,
+        N_USERS.load(SeqCst) as u128,
+        N_TOKENS.load(SeqCst) as u128,
+    )
+}
 fn addr_s(id: u128) -> String {
+    let (np, nu, nt) = layout3();
     if id >= 1000 {
-        format!("user{}", id - 1000)
+        let k = id - 1000;
+        if np > 0 && k < nu && k >= nu - np {
+            format!("contract{}", 2 + nt + (k - (nu - np)))
+        } else {
+            format!("user{}", k)
+        }
+    } else if id >= 2 + nt {
+        format!("contract{}", id + np)
     } else {
         format!("contract{}", id)
     }
 }
 fn addr_id(s: &str) -> u128 {
+    let (np, nu, nt) = layout3();
     if let Some(r) = s.strip_prefix("user") {
         1000 + r.parse::<u128>().expect("harness: bad user address")
     } else if let Some(r) = s.strip_prefix("contract") {
-        r.parse::<u128>().expect("harness: bad contract address")
+        let n = r.parse::<u128>().expect("harness: bad contract address");
+        if n < 2 + nt {
+            n
+        } else if n < 2 + nt + np {
+            1000 + (nu - np) + (n - (2 + nt))
+        } else {
+            n - np
+        }
     } else {
         panic!("harness: unknown address {}", s)
+    }
+}
+fn is_proxy(s: &str) -> bool {
+    let (np, _, nt) = layout3();
+    match s.strip_prefix("contract").and_then(|r| r.parse::<u128>().ok()) {
+        Some(n) => n >= 2 + nt && n < 2 + nt + np,
+        None => false,
+    }
+}
+#[derive(serde::Serialize, serde::Deserialize, Clone, Debug, PartialEq)]
+pub struct ProxyExec {
+    pub msgs: Vec<cosmwasm_std::CosmosMsg>,
+}
+fn proxy_execute(
+    _deps: cosmwasm_std::DepsMut,
+    _env: cosmwasm_std::Env,
+    _info: cosmwasm_std::MessageInfo,
+    msg: ProxyExec,
+) -> cosmwasm_std::StdResult<cosmwasm_std::Response> {
+    Ok(cosmwasm_std::Response::new().add_messages(msg.msgs))
+}
+fn proxy_instantiate(
+    _deps: cosmwasm_std::DepsMut,
+    _env: cosmwasm_std::Env,
+    _info: cosmwasm_std::MessageInfo,
+    _msg: Empty,
+) -> cosmwasm_std::StdResult<cosmwasm_std::Response> {
+    Ok(cosmwasm_std::Response::default())
+}
+fn proxy_query(_deps: cosmwasm_std::Deps, _env: cosmwasm_std::Env, _msg: Empty) -> cosmwasm_std::StdResult<cosmwasm_std::Binary> {
+    Err(cosmwasm_std::StdError::generic_err("the proxy answers no queries"))
+}
+fn proxy_contract() -> Box<dyn Contract<Empty>> {
+    Box::new(ContractWrapper::new(proxy_execute, proxy_instantiate, proxy_query))
+}
+/// Execute `msg` on `target` as `caller`: directly for a plain account, through the proxy's forwarder when the caller
+/// is one of the proxy contracts (the funds then come out of the proxy's own balance).
+fn xc<T: serde::Serialize + std::fmt::Debug>(
+    app: &mut App,
+    caller: &str,
+    target: &str,
+    msg: &T,
+    funds: &[Coin],
+) -> anyhow::Result<AppResponse> {
+    if is_proxy(caller) {
+        let inner = cosmwasm_std::WasmMsg::Execute {
+            contract_addr: target.to_string(),
+            msg: cosmwasm_std::to_binary(msg)?,
+            funds: funds.to_vec(),
+        };
+        app.execute_contract(
+            Addr::unchecked("operator"),
+            Addr::unchecked(caller),
+            &ProxyExec {
+                msgs: vec![inner.into()],
+            },
+            &[],
+        )
+    } else {
+        app.execute_contract(Addr::unchecked(caller), Addr::unchecked(target), msg, funds)
+    }
+}
+fn xbank(app: &mut App, from: &str, to: &str, coins: &[Coin]) -> anyhow::Result<AppResponse> {
+    if is_proxy(from) {
+        let inner = cosmwasm_std::BankMsg::Send {
+            to_address: to.to_string(),
+            amount: coins.to_vec(),
+        };
+        app.execute_contract(
+            Addr::unchecked("operator"),
+            Addr::unchecked(from),
+            &ProxyExec {
+                msgs: vec![inner.into()],
+            },
+            &[],
+        )
+    } else {
+        app.send_tokens(Addr::unchecked(from), Addr::unchecked(to), coins)
     }
 }
 // "lookalike d t": from the next init on, bank denom d is spelled exactly like the address of contract t
@@ -548,16 +657,17 @@ fn exec(w: &mut World, c: &mut Cur) -> Result<AppResponse, String> {
             let from = c.addr();
             let to = c.addr();
             let coins = c.coins();
-            e(app.send_tokens(Addr::unchecked(from), Addr::unchecked(to), &coins))
+            e(xbank(app, &from, &to, &coins))
         }
         "transfer" => {
             let ta = c.addr();
             let from = c.addr();
             let to = c.addr();
             let n = c.num();
-            e(app.execute_contract(
-                Addr::unchecked(from),
-                Addr::unchecked(ta),
+            e(xc(
+                app,
+                &from,
+                &ta,
                 &Cw20ExecuteMsg::Transfer {
                     recipient: to,
                     amount: n.into(),
@@ -571,9 +681,10 @@ fn exec(w: &mut World, c: &mut Cur) -> Result<AppResponse, String> {
             let ow = c.addr();
             let to = c.addr();
             let n = c.num();
-            e(app.execute_contract(
-                Addr::unchecked(sp),
-                Addr::unchecked(ta),
+            e(xc(
+                app,
+                &sp,
+                &ta,
                 &Cw20ExecuteMsg::TransferFrom {
                     owner: ow,
                     recipient: to,
@@ -587,9 +698,10 @@ fn exec(w: &mut World, c: &mut Cur) -> Result<AppResponse, String> {
             let ow = c.addr();
             let sp = c.addr();
             let n = c.num();
-            e(app.execute_contract(
-                Addr::unchecked(ow),
-                Addr::unchecked(ta),
+            e(xc(
+                app,
+                &ow,
+                &ta,
                 &Cw20ExecuteMsg::IncreaseAllowance {
                     spender: sp,
                     amount: n.into(),
@@ -603,9 +715,10 @@ fn exec(w: &mut World, c: &mut Cur) -> Result<AppResponse, String> {
             let s = c.addr();
             let to = c.addr();
             let n = c.num();
-            e(app.execute_contract(
-                Addr::unchecked(s),
-                Addr::unchecked(ta),
+            e(xc(
+                app,
+                &s,
+                &ta,
                 &Cw20ExecuteMsg::Mint {
                     recipient: to,
                     amount: n.into(),
@@ -617,9 +730,10 @@ fn exec(w: &mut World, c: &mut Cur) -> Result<AppResponse, String> {
             let ta = c.addr();
             let s = c.addr();
             let n = c.num();
-            e(app.execute_contract(
-                Addr::unchecked(s),
-                Addr::unchecked(ta),
+            e(xc(
+                app,
+                &s,
+                &ta,
                 &Cw20ExecuteMsg::Burn { amount: n.into() },
                 &[],
             ))
@@ -630,9 +744,10 @@ fn exec(w: &mut World, c: &mut Cur) -> Result<AppResponse, String> {
             let target = c.addr();
             let n = c.num();
             let msg = c.hook();
-            e(app.execute_contract(
-                Addr::unchecked(s),
-                Addr::unchecked(ta),
+            e(xc(
+                app,
+                &s,
+                &ta,
                 &Cw20ExecuteMsg::Send {
                     contract: target,
                     amount: n.into(),
@@ -648,9 +763,10 @@ fn exec(w: &mut World, c: &mut Cur) -> Result<AppResponse, String> {
             let target = c.addr();
             let n = c.num();
             let msg = c.hook();
-            e(app.execute_contract(
-                Addr::unchecked(sp),
-                Addr::unchecked(ta),
+            e(xc(
+                app,
+                &sp,
+                &ta,
                 &Cw20ExecuteMsg::SendFrom {
                     owner: ow,
                     contract: target,
@@ -665,9 +781,10 @@ fn exec(w: &mut World, c: &mut Cur) -> Result<AppResponse, String> {
             let sp = c.addr();
             let ow = c.addr();
             let n = c.num();
-            e(app.execute_contract(
-                Addr::unchecked(sp),
-                Addr::unchecked(ta),
+            e(xc(
+                app,
+                &sp,
+                &ta,
                 &Cw20ExecuteMsg::BurnFrom {
                     owner: ow,
                     amount: n.into(),
@@ -680,9 +797,10 @@ fn exec(w: &mut World, c: &mut Cur) -> Result<AppResponse, String> {
             let ow = c.addr();
             let sp = c.addr();
             let n = c.num();
-            e(app.execute_contract(
-                Addr::unchecked(ow),
-                Addr::unchecked(ta),
+            e(xc(
+                app,
+                &ow,
+                &ta,
                 &Cw20ExecuteMsg::DecreaseAllowance {
                     spender: sp,
                     amount: n.into(),
@@ -701,9 +819,10 @@ fn exec(w: &mut World, c: &mut Cur) -> Result<AppResponse, String> {
             let n1 = c.num();
             let tol = c.opt_dec();
             let receiver = c.opt_addr();
-            e(app.execute_contract(
-                Addr::unchecked(caller),
-                Addr::unchecked(p),
+            e(xc(
+                app,
+                &caller,
+                &p,
                 &PairExecuteMsg::ProvideLiquidity {
                     assets: [
                         Asset {
@@ -730,9 +849,10 @@ fn exec(w: &mut World, c: &mut Cur) -> Result<AppResponse, String> {
             let bp = c.opt_dec();
             let ms = c.opt_dec();
             let to = c.opt_addr();
-            e(app.execute_contract(
-                Addr::unchecked(caller),
-                Addr::unchecked(p),
+            e(xc(
+                app,
+                &caller,
+                &p,
                 &PairExecuteMsg::Swap {
                     offer_asset: Asset {
                         info,
@@ -752,9 +872,10 @@ fn exec(w: &mut World, c: &mut Cur) -> Result<AppResponse, String> {
             let cs = c.addr();
             let ca = c.num();
             let msg = c.hook();
-            e(app.execute_contract(
-                Addr::unchecked(caller),
-                Addr::unchecked(p),
+            e(xc(
+                app,
+                &caller,
+                &p,
                 &PairExecuteMsg::Receive(cw20::Cw20ReceiveMsg {
                     sender: cs,
                     amount: ca.into(),
@@ -769,9 +890,10 @@ fn exec(w: &mut World, c: &mut Cur) -> Result<AppResponse, String> {
             let dn = c.num();
             let d0 = c.num() as u8;
             let d1 = c.num() as u8;
-            e(app.execute_contract(
-                Addr::unchecked(caller),
-                Addr::unchecked(p),
+            e(xc(
+                app,
+                &caller,
+                &p,
                 &PairExecuteMsg::UpdateNativeTokenDecimals {
                     denom: denom_s(dn),
                     asset_decimals: [d0, d1],
@@ -785,9 +907,10 @@ fn exec(w: &mut World, c: &mut Cur) -> Result<AppResponse, String> {
             let operations = c.ops();
             let m = c.opt_num();
             let to = c.opt_addr();
-            e(app.execute_contract(
-                Addr::unchecked(caller),
-                Addr::unchecked(addr_s(1)),
+            e(xc(
+                app,
+                &caller,
+                &addr_s(1),
                 &RouterExecuteMsg::ExecuteSwapOperations {
                     operations,
                     minimum_receive: m.map(Uint128::from),
@@ -802,9 +925,10 @@ fn exec(w: &mut World, c: &mut Cur) -> Result<AppResponse, String> {
             let o = c.asset();
             let a = c.asset();
             let to = c.opt_addr();
-            e(app.execute_contract(
-                Addr::unchecked(caller),
-                Addr::unchecked(addr_s(1)),
+            e(xc(
+                app,
+                &caller,
+                &addr_s(1),
                 &RouterExecuteMsg::ExecuteSwapOperation {
                     operation: SwapOperation::HaloSwap {
                         offer_asset_info: o,
@@ -821,9 +945,10 @@ fn exec(w: &mut World, c: &mut Cur) -> Result<AppResponse, String> {
             let prev = c.num();
             let m = c.num();
             let receiver = c.addr();
-            e(app.execute_contract(
-                Addr::unchecked(caller),
-                Addr::unchecked(addr_s(1)),
+            e(xc(
+                app,
+                &caller,
+                &addr_s(1),
                 &RouterExecuteMsg::AssertMinimumReceive {
                     asset_info: target,
                     prev_balance: prev.into(),
@@ -838,9 +963,10 @@ fn exec(w: &mut World, c: &mut Cur) -> Result<AppResponse, String> {
             let cs = c.addr();
             let ca = c.num();
             let msg = c.hook();
-            e(app.execute_contract(
-                Addr::unchecked(caller),
-                Addr::unchecked(addr_s(1)),
+            e(xc(
+                app,
+                &caller,
+                &addr_s(1),
                 &RouterExecuteMsg::Receive(cw20::Cw20ReceiveMsg {
                     sender: cs,
                     amount: ca.into(),
@@ -867,9 +993,10 @@ fn exec(w: &mut World, c: &mut Cur) -> Result<AppResponse, String> {
                 .wrap()
                 .query_wasm_smart(addr_s(0), &FactoryQueryMsg::Config {})
                 .expect("harness: factory config query");
-            e(app.execute_contract(
-                Addr::unchecked(caller),
-                Addr::unchecked(addr_s(0)),
+            e(xc(
+                app,
+                &caller,
+                &addr_s(0),
                 &FactoryExecuteMsg::UpdateConfig {
                     owner,
                     token_code_id: if shape & 4 != 0 {
@@ -900,9 +1027,10 @@ fn exec(w: &mut World, c: &mut Cur) -> Result<AppResponse, String> {
             let min1 = c.num();
             let comm = c.opt_num();
             let lpdec = c.opt_num();
-            e(app.execute_contract(
-                Addr::unchecked(caller),
-                Addr::unchecked(addr_s(0)),
+            e(xc(
+                app,
+                &caller,
+                &addr_s(0),
                 &FactoryExecuteMsg::CreatePair {
                     asset_infos: [a0, a1],
                     requirements: CreatePairRequirements {
@@ -924,9 +1052,10 @@ fn exec(w: &mut World, c: &mut Cur) -> Result<AppResponse, String> {
             let caller = c.addr();
             let dn = c.num();
             let k = c.num() as u8;
-            e(app.execute_contract(
-                Addr::unchecked(caller),
-                Addr::unchecked(addr_s(0)),
+            e(xc(
+                app,
+                &caller,
+                &addr_s(0),
                 &FactoryExecuteMsg::AddNativeTokenDecimals {
                     denom: denom_s(dn),
                     decimals: k,
@@ -948,9 +1077,10 @@ fn exec(w: &mut World, c: &mut Cur) -> Result<AppResponse, String> {
                 1 => Some(cfg.pair_code_id),
                 _ => Some(if cfg.pair_code_id == 2 { 5 } else { 2 }),
             };
-            e(app.execute_contract(
-                Addr::unchecked(caller),
-                Addr::unchecked(addr_s(0)),
+            e(xc(
+                app,
+                &caller,
+                &addr_s(0),
                 &FactoryExecuteMsg::MigratePair {
                     contract,
                     code_id,
@@ -1049,6 +1179,14 @@ fn init(c: &mut Cur) -> World {
     let ubal = c.num();
     let fbal = c.num();
     let tdec: Vec<u128> = (0..nt).map(|_| c.num()).collect();
+    {
+        use std::sync::atomic::Ordering::SeqCst;
+        N_USERS.store(nu as u64, SeqCst);
+        N_TOKENS.store(nt as u64, SeqCst);
+        if N_PROXIES.load(SeqCst) as u128 >= nu {
+            panic!("harness: more proxies than users (user 0 owns the factory and must be a plain account)");
+        }
+    }
     let mut app = App::default();
     app.init_modules(|router, _, storage| {
         for i in 0..nu {
@@ -1141,6 +1279,17 @@ fn init(c: &mut Cur) -> World {
             .unwrap();
         assert_eq!(t.as_str(), format!("contract{}", 2 + i));
     }
+    // the proxy contracts, right after the asset tokens (see addr_s)
+    let n_proxies = layout3().0;
+    if n_proxies > 0 {
+        let proxy_code = app.store_code(proxy_contract());
+        for j in 0..n_proxies {
+            let pa = app
+                .instantiate_contract(proxy_code, Addr::unchecked("operator"), &Empty {}, &[], "proxy", None)
+                .unwrap();
+            assert_eq!(pa.as_str(), addr_s(1000 + (nu - n_proxies) + j));
+        }
+    }
     let mut w = World {
         app,
         nu,
@@ -1171,6 +1320,11 @@ pub fn serve() {
         let toks: Vec<&str> = line.split_whitespace().collect();
         let mut c = Cur { t: toks, i: 0 };
         let resp = match c.next() {
+            "proxies" => {
+                use std::sync::atomic::Ordering::SeqCst;
+                N_PROXIES.store(c.num() as u64, SeqCst);
+                "ok".to_string()
+            }
             "lookalike" => {
                 use std::sync::atomic::Ordering::SeqCst;
                 LOOK_D.store(c.num() as u64, SeqCst);
